@@ -154,8 +154,12 @@ pub fn replay_line(st: &mut Stats, prop: &str, line: &Value) {
     if !d.is_empty() && st.violations.len() < 4 {
         d.truncate(8);
         let mut l2 = line.clone();
-        l2["lbytes"] = json!(arr(&line["lbytes"]).len());
-        l2["rbytes"] = json!(arr(&line["rbytes"]).len());
+        // the bytes stay in the replay file (TLC's pairs are a few hundred bytes; the big case is replayed from its seed)
+        for k in ["lbytes", "rbytes"] {
+            if line[k].as_array().map_or(false, |a| a.len() > 200_000) {
+                l2[k] = json!("...");
+            }
+        }
         st.violations.push(Violation { property: prop.to_string(), what: d[0].clone(), replay: json!({"cmd": "replay-compare", "property": prop, "line": l2, "diffs": d}) });
     }
 }
@@ -339,6 +343,10 @@ pub fn replay_one(v: &Value) -> bool {
     if let Some(seed) = v.get("big_compare").and_then(|s| s.as_u64()) {
         big_compare_case(&mut st, &prop, seed);
     } else {
+        if v["line"]["via"].as_str() != Some("obo") && !(v["line"]["lbytes"].is_array() && v["line"]["rbytes"].is_array()) {
+            eprintln!("this replay file does not hold the two ontologies (written before the bytes were kept); re-run the check to get a replayable file");
+            std::process::exit(2);
+        }
         guard_case(&mut st, &prop, "replay-compare", &v["line"], |st| replay_line(st, &prop, &v["line"]));
     }
     for x in &st.violations {
